@@ -213,6 +213,19 @@ PROPS["C19"] = {
 }
 PROPS["C07"]["units"].append(U("TestVerif_C07_ExplorerQuorum", "./processor", PLAIN, PLAIN, kind="plain", module=EX))
 
+ALPH = "./pkg/alephium"
+PROPS["C11"] = {
+    "rule": "six-field events whose values sit on and around every boundary of the statement (0, 255, 256, 65535, 65536, 2^64-1, 2^64, 2^256-1), random in-range values, "
+            "non-numeric / signed / decorated decimal strings, wrong type tags, nil variants, 0/5/7 fields, swapped fields, nonce of 0..8 bytes, malformed hex, payload "
+            "0..1200 bytes, millisecond block timestamps; contract-id/address and hex conversions on well- and malformed ids; attestations produced by interpreting "
+            "token_bridge.ral attestToken + governance.ral publishWormholeMessage from the current tree and decoded by the node; non-trivial = a field on a listed boundary",
+    "assumptions": ["a numeric field is whatever Go's base-10 integer parser accepts (incl. a sign); whether it fits is decided on its value", "contract side = interpreter of the Ralph sources of the current tree; event fields are reported in declaration order"],
+    "pre": extract_contracts,
+    "units": [U("TestVerif_C11_Fields", ALPH, R(60000), R(400000, shards=16, timeout=900)),
+              U("TestVerif_C11_Conversions", ALPH, R(20000), R(200000, shards=8, timeout=900)),
+              U("TestVerif_C11_Attest", ALPH, R(3000), R(30000, shards=16, timeout=900))],
+}
+
 def setup():
     """MANIFEST.setup_cmd: create stubs and warm the build cache for every harness binary."""
     work = os.path.join(vdriver.WORKROOT, "setup-%d" % os.getpid())
